@@ -63,10 +63,16 @@ def nonneg(e):
 def rule_r1(rep, repo, f):
     body = strip_docstring(f.node.body)
     accs = {}
+    derived = {}   # list built by a comprehension over an accumulator: empty exactly when that one is
     for s in body:
         if isinstance(s, ast.Assign) and isinstance(s.value, ast.List) and not s.value.elts and \
                 isinstance(s.targets[0], ast.Name):
             accs[s.targets[0].id] = s
+        elif isinstance(s, ast.Assign) and isinstance(s.value, ast.ListComp) and isinstance(s.targets[0], ast.Name) and \
+                len(s.value.generators) == 1 and not s.value.generators[0].ifs and \
+                isinstance(s.value.generators[0].iter, ast.Name) and s.value.generators[0].iter.id in accs:
+            accs[s.targets[0].id] = s
+            derived[s.targets[0].id] = s.value.generators[0].iter.id
     stack_calls = [n for n in ast.walk(f.node) if isinstance(n, ast.Call) and
                    norm(n.func) in ("np.concatenate", "np.vstack", "np.hstack", "np.stack", "np.array") and n.args
                    and isinstance(n.args[0], ast.Name) and n.args[0].id in accs]
@@ -82,7 +88,15 @@ def rule_r1(rep, repo, f):
             if app:
                 # a loop may always run zero times; additionally record an explicit skip
                 cont = [n for n in ast.walk(lp) if isinstance(n, ast.Continue) and n.lineno < app[0].lineno]
-                skippable[a] = "explicit `continue` before the append" if cont else "loop may run zero times"
+                guarded_app = any(isinstance(n, ast.If) and any(x is app[0] for x in ast.walk(n)) for n in ast.walk(lp))
+                skippable[a] = "explicit `continue` before the append" if cont else \
+                    "the append is conditional" if guarded_app else "loop may run zero times"
+    for a, src in derived.items():
+        root = src
+        while root in derived:
+            root = derived[root]
+        if root in skippable:
+            skippable[a] = f"built from `{root}`, which can be empty ({skippable[root]})"
     guards_by_node = {id(n): g for n, g in e6.guarded_nodes(f.node)}
     for c in stack_calls:
         a = c.args[0].id
@@ -122,11 +136,22 @@ def rule_r2(rep, repo):
         if isinstance(st.value, ast.Name):
             exprs = [s.value for s in ast.walk(init.node) if isinstance(s, ast.Assign)
                      and norm(s.targets[0]) == st.value.id and s.lineno < st.lineno]
+        # a private helper that computes the spacings: every value it returns is judged
+        expanded = []
         for e in exprs:
+            if isinstance(e, ast.Call) and isinstance(e.func, ast.Attribute) and norm(e.func.value) in ("self", "cls", "PeriodicGrid"):
+                h = repo.resolve_method("PeriodicGrid", e.func.attr)
+                if h is not None:
+                    rets = [r.value for r in ast.walk(h.node) if isinstance(r, ast.Return) and r.value is not None]
+                    if rets:
+                        expanded += [(r, h) for r in rets]
+                        continue
+            expanded.append((e, init))
+        for e, owner in expanded:
             n += 1
-            branch = _branch_label(init.node, e)
+            branch = _branch_label(owner.node, e) if owner is init else f"{owner.name}:{_branch_label(owner.node, e)}"
             if nonneg(e):
-                rep.ok("R2.spacings-nonnegative", f"PeriodicGrid.__init__[{branch}]", repo.rel(init.module, e), norm(e)[:60])
+                rep.ok("R2.spacings-nonnegative", f"PeriodicGrid.__init__[{branch}]", repo.rel(owner.module, e), norm(e)[:60])
             else:
                 rep.violation("R2.spacings-nonnegative", init.qual, branch,
                               f"`{norm(e)[:70]}` is not provably non-negative: with a negative lattice vector the plane "
@@ -222,6 +247,13 @@ def rule_r5(rep, repo):
     for name, env in configurations():
         n += 1
         si = e7.CShapes(env, None)
+
+        def resolver(recv, name):
+            if recv in ("self", "cls", "PeriodicGrid"):
+                h = repo.resolve_method("PeriodicGrid", name)
+                return h.node if h is not None and isinstance(h.node, ast.FunctionDef) else None
+            return None
+        si.resolver = resolver
         si.run(strip_docstring(init.node.body))
         K = 0 if env["realvecs"][0] == "none" else (1 if len(env["realvecs"][1]) == 1 else env["realvecs"][1][0])
         cons = "periodicgrid.PeriodicGrid.__init__"
@@ -255,6 +287,7 @@ def rule_r5(rep, repo):
         q.fields.setdefault("_points", env["points"])
         q.fields.setdefault("_weights", env["weights"])
         q.fields["_kdtree"] = ("unknown",)
+        q.resolver = resolver
         body = strip_docstring(glg.node.body)
         # analyse up to the translation loop (the loop itself is geometric, not shape related)
         pre = []
